@@ -125,6 +125,26 @@ pub fn judge(case: &Case, acc: &mut Acc) {
             if tf != real.is_ok() {
                 viol!(acc, P, "from_raw-vs-try_from", case, "from_raw and TryFrom disagree", format!("{}", real.is_ok()), format!("{tf}"));
             }
+            // the same value at the other three residues of its memory address modulo 4 (a message
+            // parsed in place behind a 2-byte TCP length prefix, in a ring buffer ...): the decoding is a
+            // function of the bytes, not of where they lie
+            {
+                let first = real.as_ref().map(|t| real::typed_fields(t, tid)).map_err(|e| e.clone());
+                let len = case.data.len();
+                let mut buf = vec![0xEEu8; len + 8];
+                let a0 = buf.as_ptr() as usize;
+                for r in 1..4usize {
+                    let s0 = (0..8usize).find(|s| (a0 + s) % 4 == r).unwrap();
+                    buf[s0..s0 + len].copy_from_slice(&case.data);
+                    let v = &buf[s0..s0 + len];
+                    let raw_r = RawAttribute::new(AttributeType::new(code), v);
+                    let got = real::from_raw_typed(k, &raw_r).map(|t| real::typed_fields(&t, tid));
+                    if got != first {
+                        viol!(acc, P, &format!("decode-depends-on-alignment/{}", k.name()), case, format!("the same value decodes differently when it lies at an address that is {} modulo 4", v.as_ptr() as usize % 4), format!("{first:?}"), format!("{got:?}"));
+                        break;
+                    }
+                }
+            }
             if code != k.code() {
                 match real {
                     Err(PErr::WrongAttributeImplementation) => acc.outcome("wrong type refused"),
